@@ -55,6 +55,7 @@ import (
 	"istio.io/istio/pilot/pkg/util/protoconv"
 	pxds "istio.io/istio/pilot/pkg/xds"
 	txds "istio.io/istio/pilot/test/xds"
+	cluster2 "istio.io/istio/pkg/cluster"
 	"istio.io/istio/pkg/config"
 	"istio.io/istio/pkg/config/mesh"
 	"istio.io/istio/pkg/config/mesh/meshwatcher"
@@ -428,7 +429,11 @@ func (w *world) pushShard(sh *shardSpec) {
 	for _, e := range sh.eps {
 		eps = append(eps, e.DeepCopy())
 	}
-	w.s.Discovery.EDSUpdate(model.ShardKey{Cluster: "c2", Provider: provider.Kubernetes}, sh.host, sh.ns, eps)
+	c := sh.cluster
+	if c == "" {
+		c = "c2"
+	}
+	w.s.Discovery.EDSUpdate(model.ShardKey{Cluster: cluster2.ID(c), Provider: provider.Kubernetes}, sh.host, sh.ns, eps)
 }
 
 // fingerprint is the order-insensitive content of the control plane's state: which configs,
